@@ -423,6 +423,19 @@ pub fn run_case(tape: &mut Tape, _tier: Tier, _p: &CaseParams) -> CaseOutcome {
       return out;
     }
   }
+  if let Some((spec, ta, tb)) = jsr_redirect_difference(incremental, at_once) {
+    out.violation(
+      "C19",
+      "partition-equals-at-once",
+      "partition:jsr-version-selection-differs",
+      format!(
+        "{} redirects to {} after successive builds {:?} and to {} when all roots are built at once",
+        spec, ta, parts, tb
+      ),
+      ctx(json!({"spec": spec})),
+    );
+    return out;
+  }
   // partition: entries first (classified by what they are), then the rest
   {
     let li = loose(incremental);
@@ -559,6 +572,19 @@ pub fn run_case(tape: &mut Tape, _tier: Tier, _p: &CaseParams) -> CaseOutcome {
         );
         return out;
       }
+    }
+    if let Some((spec, tr, ts)) = jsr_redirect_difference(&reloaded, &scratch) {
+      out.violation(
+        "C19",
+        "reload-converges",
+        "reload:jsr-version-selection-differs",
+        format!(
+          "{} stays redirected to {} after the reload but a from-scratch build of the new sources redirects it to {}",
+          spec, tr, ts
+        ),
+        ctx(json!({"spec": spec})),
+      );
+      return out;
     }
     if !bslots.contains_key(edit_target.as_ref().unwrap().as_str()) {
       // the edited module was not in the graph: nothing to reload
